@@ -108,7 +108,8 @@ def handle (j : Json) : P Json := do
       | "zip" => pure MapMode.zip | "product" => pure .product | s => throw s!"bad mode {s}")
     let em ← (do match (← str (fieldD j "mapErr" (.str "raise"))) with
       | "raise" => pure ErrMode.raise | "continue" => pure .cont | s => throw s!"bad errMode {s}")
-    let m := HG.map bodySem rn prog root values mo mode em cfg
+    let k : Option Int ← (match fieldD j "k" .null with | .null => pure none | e => do pure (some (← int e)))
+    let m := HG.mapLimited bodySem rn prog root values mo mode em cfg k
     pure (Json.mkObj [("results", .arr (m.results.map encRunOut).toArray),
       ("raised", match m.raised with | some e => .str (encErr e) | .none => .null),
       ("log", .arr (m.log.map encLog).toArray)])
